@@ -148,6 +148,17 @@ Theorem C14_reject_bad_checksum : forall pver net ebs bs k payload rest, 24 <= l
   read_message pver net ebs bs = FErr EChecksum rest.
 Proof. exact reject_bad_checksum. Qed.
 
+(* the overall limit: a header announcing more than max_message_payload ebs is refused on the header alone
+   (this is C14_reject_oversize in the oracle's boolean form), and inside a reject payload - the kind whose
+   type limit IS the overall limit - a string count above it is refused before the string is allocated *)
+Theorem C14_header_oversize_refused : forall pver net ebs bs,
+  header_oversize ebs bs = true -> read_message pver net ebs bs = FErr EOversize (skipn 24 bs).
+Proof. exact header_oversize_refused. Qed.
+
+Theorem C14_string_rejected : forall k pver mmp bs,
+  string_over_limit k pver mmp bs = true -> dec_payload pver mmp k bs = Err EStrTooLong.
+Proof. exact string_rejected. Qed.
+
 (* counts above the per-type limit are refused (before anything is allocated) *)
 Theorem C14_count_rejected : forall pver mmp k bs,
   count_over_limit k bs = true -> dec_payload pver mmp k bs = Err ETooMany.
@@ -197,6 +208,8 @@ Print Assumptions C14_reject_wrong_magic.
 Print Assumptions C14_reject_unknown_command.
 Print Assumptions C14_reject_type_oversize.
 Print Assumptions C14_reject_bad_checksum.
+Print Assumptions C14_header_oversize_refused.
+Print Assumptions C14_string_rejected.
 Print Assumptions C14_count_rejected.
 Print Assumptions C14_alloc_bounded.
 Print Assumptions C14_alloc_frame_bounded.
